@@ -65,9 +65,50 @@ def _mk_PL():
     return net
 
 
-_MAKERS = {"L1": _mk_L1, "MI2": _mk_MI2, "PL": _mk_PL}
+def _mk_TS():
+    """phase shifting transformer (Dyn5, 150 degree) in the SECOND island: island A = eg@0 - line - 1 (20 kV);
+    island B = eg@2 (110 kV) - line - 3 =trafo 110/20, shift 150= 4 - line - 5; loads at 1, 3, 4, 5.
+    Moving island B's ext_grid to bus 4 / 5 feeds the transformer from its LV side (step-up)."""
+    net = pp.create_empty_network(sn_mva=1.)
+    for i, vn in enumerate([20., 20., 110., 110., 20., 20.]):
+        pp.create_bus(net, vn, name="b%d" % i)
+    pp.create_ext_grid(net, 0, vm_pu=1.0, **na.EG)
+    pp.create_ext_grid(net, 2, vm_pu=1.02, **na.EG)
+    pp.create_line_from_parameters(net, 0, 1, **na.LINE, **na.SC_LINE)
+    pp.create_line_from_parameters(net, 2, 3, **na.LINE110, **na.SC_LINE)
+    prm = dict(na.TR)
+    prm["shift_degree"] = 150.
+    pp.create_transformer_from_parameters(net, 3, 4, **prm)
+    pp.create_line_from_parameters(net, 4, 5, **na.LINE, **na.SC_LINE)
+    pp.create_load(net, 1, 1.0, 0.3)
+    pp.create_load(net, 3, 6.0, 1.5)
+    pp.create_load(net, 4, 1.0, 0.2)
+    pp.create_load(net, 5, 2.5, 0.8)
+    return net
+
+
+def _mk_G2():
+    """two generators with STAGGERED reactive limits on a 110 kV feeder eg@0 - 1 - 2 - 3: gen0@2 (+-4 Mvar) is
+    beyond its upper limit in the first pass of a q-limit loop, gen1@3 (17 Mvar unlimited, max 22 Mvar) only after gen0 was fixed."""
+    net = pp.create_empty_network(sn_mva=1.)
+    for i in range(4):
+        pp.create_bus(net, 110., name="b%d" % i)
+    pp.create_ext_grid(net, 0, vm_pu=1.0, **na.EG)
+    for k, (f, t) in enumerate([(0, 1), (1, 2), (2, 3)]):
+        d = dict(na.LINE110)
+        d["length_km"] = 25. + 5 * k
+        pp.create_line_from_parameters(net, f, t, **d, **na.SC_LINE)
+    pp.create_load(net, 1, 35., 10.)
+    pp.create_load(net, 3, 30., 14.)
+    for bus, lim in ((2, (-4., 4.)), (3, (-6., 22.))):
+        pp.create_gen(net, bus, 12., vm_pu=1.03, min_q_mvar=lim[0], max_q_mvar=lim[1], vn_kv=110., xdss_pu=0.2,
+                      rdss_ohm=0.05, cos_phi=0.9, sn_mva=20.)
+    return net
+
+
+_MAKERS = {"L1": _mk_L1, "MI2": _mk_MI2, "PL": _mk_PL, "TS": _mk_TS, "G2": _mk_G2}
 HOT = dict(na.HOT)
-HOT.update({"L1": (3, 4), "MI2": (3, 5), "PL": (2, 1)})
+HOT.update({"L1": (3, 4), "MI2": (3, 5), "PL": (2, 1), "TS": (5, 4), "G2": (1, 3)})
 
 
 def base(name):
@@ -83,6 +124,10 @@ def apply_dev(net, d):
     if k == "impedance_is":          # impedance with explicit in_service flag
         _, fb, tb, ins = d
         pp.create_impedance(net, fb, tb, 0.02, 0.05, 10., in_service=ins)
+    elif k == "shunt_pair":          # two shunts whose ratings cancel in total (p, q at bus a; -p, -q at bus b)
+        _, a, b, p, q = d
+        pp.create_shunt(net, a, q, p)
+        pp.create_shunt(net, b, -q, -p)
     elif k == "trafo3w_sw":          # new switch at a trafo3w side given by name
         _, side, closed = d
         pp.create_switch(net, int(net.trafo3w.at[0, side + "_bus"]), 0, "t3", closed=closed)
